@@ -963,6 +963,96 @@ def run_C04(ctx):
     run_td(ctx, rank=True)
 
 
+# C11 memory
+def run_C11(ctx):
+    # container-size invariants of the mechanism specs (E1)
+    asb = td_consts()
+    c = {"MaxBacklog": 1, "Values": "{0,1,2,3}", "Weights": "{0,1,2}", "MaxOps": 5 if ctx.quick else 6, "Scale": '"any"', "DeltaN": 2, "DeltaD": 1, "ClearResetsN": asb["ClearResetsN"]}
+    ctx.e1.append(vlib.model_check("MC_TDigest", c, ["BacklogBound", "Sorted"], ctx.sub("e1")))
+    c = {"K": 2, "NMax": 12, "GMax": 3, "EMIT": "FALSE"}
+    c.update(rs_consts())
+    ctx.e1.append(vlib.model_check("MC_Reservoir", c, ["ValidInv"], ctx.sub("e1")))
+    c = {"Width": 2, "NE": 3, "NMax": 9, "D": 12, "EMIT": "FALSE"}
+    ctx.e1.append(vlib.model_check("MC_Lossy", c, ["TableBound"], ctx.sub("e1")))
+    w = ctx.sub("mem")
+    p = os.path.join(w, "mem.ndjson")
+    stats = vlib.vh(["mem", "all", "--out", p] + ([] if ctx.quick else ["--thorough"]), w)
+    ctx.e3_calls += stats["measurements"]
+    ctx.executed += stats["measurements"]
+    n, rej = vlib.adjudicate("P_Memory", p, w, parallel=1)
+    ctx.judged += n
+    ctx.tagged += n
+    for tid, clause in rej:
+        ctx.rejects.append({"tid": tid, "clause": clause, "records": p, "s": "mem", "pspec": "P_Memory", "pconsts": {}, "hist": None, "scenarios": None, "kind": "mem"})
+    sample_records(ctx, p, 2, '"cuckoo"')
+
+
+def mem_replay(ctx, rp):
+    ctx2 = Ctx(ctx.pid, ctx.tier, ctx.seed, ctx.sub("replay_run"))
+    run_C11(ctx2)
+    mine = [r for r in ctx2.rejects if ctx.pid in vlib.clause_props(r["clause"])]
+    want = rp["record"]["cfg"] if rp.get("record") else None
+    for r in mine[:5]:
+        log("replay: measurement %s: %s" % (r["tid"], r["clause"]))
+    if mine:
+        print("VIOLATION property=%s replay=%s" % (ctx.pid, rp.get("_path", "")), flush=True)
+        return 1
+    log("replay: memory bounds held")
+    return 0
+
+
+SPECIAL_REPLAY["mem"] = mem_replay
+
+
+# C07 sizing
+def run_C07(ctx):
+    asb = json.load(open(os.path.join(vlib.SPEC, "BloomAsBuilt.json")))
+    w = ctx.sub("sizing")
+    c = {"EMIT": "FALSE", "BIG": "FALSE" if ctx.quick else "TRUE", "BloomAsFound": asb["BloomAsFound"]}
+    ctx.e1.append(vlib.model_check("Gen_Sizing", c, ["UsableK"], ctx.sub("e1"), workers=1))
+    c["EMIT"] = "TRUE"
+    gen, st = vlib.generate("Gen_Sizing", c, w, "pts.out")
+    p = os.path.join(w, "p.ndjson")
+    stats = vlib.vh(["sizing", "all", "--gen", gen, "--out", p, "--seed", str(ctx.seed)], w)
+    if stats["points"] != st["distinct"]:
+        raise ToolError("harness processed %d points, TLC emitted %d" % (stats["points"], st["distinct"]))
+    ctx.e2_transitions += stats["points"]
+    ctx.executed += 3 * stats["points"]
+    ctx.drift += stats["kdrift"]
+    if stats["kdrift"]:
+        ctx.drift_notes.append({"bloom_k_differs_from_spec_K(p)_on_points": stats["kdrift"]})
+    n, rej = vlib.adjudicate("P_Sizing", p, w, parallel=2)
+    ctx.judged += n
+    ctx.tagged += n
+    for tid, clause in rej:
+        ctx.rejects.append({"tid": tid, "clause": clause, "records": p, "s": "sizing", "pspec": "P_Sizing", "pconsts": {}, "hist": None, "scenarios": None, "kind": "sizing"})
+    sample_records(ctx, p, 2)
+    # the quotient-filter clause of C07 (false positives only from fingerprint collisions) is the exact-set invariant of C13
+    qf_e1(ctx, [(2, 1), (2, 2)])
+    qf_e2(ctx, [(2, 2)], pairs=0)
+
+
+def sizing_replay(ctx, rp):
+    w = ctx.sub("replay_run")
+    r = rp["record"]
+    gen = os.path.join(w, "pt.ndjson")
+    with open(gen, "w") as f:
+        f.write(json.dumps({"k": "pt", "n": r["n"], "a": r["a"], "c": r["c"], "kspec": r["kspec"]}) + "\n")
+    p = os.path.join(w, "p.ndjson")
+    vlib.vh(["sizing", "all", "--gen", gen, "--out", p, "--seed", str(ctx.seed)], w)
+    n, rej = vlib.adjudicate("P_Sizing", p, w, parallel=1)
+    for t, c in rej:
+        log("replay: point n=%s p=%s/%s rejected: %s" % (r["n"], r["a"], r["c"], c))
+    if [c for t, c in rej if ctx.pid in vlib.clause_props(c)]:
+        print("VIOLATION property=%s replay=%s" % (ctx.pid, rp.get("_path", "")), flush=True)
+        return 1
+    log("replay: property held on the replayed point")
+    return 0
+
+
+SPECIAL_REPLAY["sizing"] = sizing_replay
+
+
 def handle_hang(ctx, stats, records, tag, pspec, hist=None):
     for h in stats.get("hang", []):
         ctx.rejects.append({"tid": h.get("tid", 0), "clause": PROPS[ctx.pid].get("hang_clause", ctx.pid + ".total: a call did not return (hang)"),
@@ -1052,6 +1142,16 @@ PROPS = {
             "rule": "all nine structures: every clear transition of the bounded models leaves an object from which all outgoing transitions are re-executed next to a freshly constructed object (lock-step, identical scripted RNG), "
                     "every executed call is preceded by a clone whose answers are re-read afterwards; TDigest on K0..K3 with pre-clear histories of 500-3500 inserts in E3",
             "assumptions": ["TLC and the TLA+ P-specs judge every executed call", "observational equality is equality of all public read answers over the key universe of the run"]},
+    "C11": {"run": run_C11, "level": "exploration",
+            "rule": "live heap bytes (counting allocator) of each of the nine structures over a configuration grid (fingerprint / remainder widths 2..64, sizes over orders of magnitude) "
+                    "after construction, after 10^2..10^5 operations, after clear() and reuse, and on failed-insert / failed-union paths; judged by P_Memory against HeapModel(cfg); every measurement is a distinct configuration",
+            "assumptions": ["allocation is outside what a TLA+ state machine models: the spec contributes the bound (HeapModel) and the container-size invariants, the allocator the measurement",
+                            "constant factors: 3/2 for packed tables, 4 for Vec/HashMap-backed structures, + 4 KiB"]},
+    "C07": {"run": run_C07, "level": "exploration",
+            "rule": "every point of the TLA+ parameter plane Gen_Sizing (n in {1,2,3,7,50,1000[,20000]} x p = a/c incl. p > 1/2, 1 - 2^-j, 2^-j) constructed with with_properties / with_properties_4 / _8, "
+                    "n distinct inserts, queries, len(); judged by P_Sizing: k >= 1, m >= 1, no panic, no Full, no false negative, 2b/2^l <= p, capacity >= n; the quotient-filter rate clause is the exact-set invariant of C13 (re-run here); "
+                    "every point is a distinct configuration",
+            "assumptions": ["NOT decided (statistical / transcendental): Bloom false-positive rate <= 1.3 p and the accuracy of BloomFilter::len(); measured false-positive counts are recorded in the evidence samples only"]},
     "C12": {"run": lambda ctx: (run_ck(ctx), run_C13(ctx)), "level": "model_checking", "rule": CK_RULE + "; quotient filter as C13", "assumptions": CK_ASSUME},
     "C13": {"run": run_C13, "level": "model_checking",
             "rule": "E1: every reachable state of the quotient-filter M-spec for the listed (q,r); E2: every emitted transition executed "
